@@ -5,10 +5,10 @@ import toklib as T
 
 def run(ck):
     bindir, model = K.setup(ck)
-    n = 1500 if ck.quick else 40000
+    n = 6000 if ck.quick else 40000
     corr = [T.gen_case(ck.rng, "h") for _ in range(n)]
     K.correspondence(ck, bindir, model, corr)
-    inputs = K.gen_inputs(ck, 2500 if ck.quick else 80000, "h")
+    inputs = K.gen_inputs(ck, 10000 if ck.quick else 80000, "h")
     # line breaks in every syntactic position: sprinkle CR / LF / CRLF into generated inputs
     r = ck.rng
     extra = []
@@ -19,7 +19,7 @@ def run(ck):
         extra.append(s[:k] + r.choice(["\n", "\r", "\r\n", "\n\n", "\r\r", "\n\r"]) + s[k:])
     inputs += extra
     # long character runs (beyond the 16-byte SIMD stride) with line breaks in earlier blocks and a stop character later
-    for _ in range(300 if ck.quick else 8000):
+    for _ in range(1200 if ck.quick else 8000):
         run_ = "".join(r.choice("abcdefgh \n\n\té") for _ in range(r.randint(20, 90)))
         k = r.randint(0, len(run_))
         inputs.append(run_[:k] + r.choice(["<b>", "&amp;", "\r", "\0", "\r\n", "<!--x-->"]) + run_[k:] + r.choice(["", "<i>", "\n"]))
